@@ -241,6 +241,43 @@ def run_config(chk, facts):
                       "skips it and the table silently disappears from the patched font")
     chk.floor("C18-e", "processed_tables.insert sites", len(inserts), 1)
 
+    # ---- C18-f -------------------------------------------------------------------------------
+    chk.rule("C18-f", "T-MUST: a brotli backend returns Ok only after the decoder examined the stream: every exit of "
+                      "shared_brotli_decode_* that is not classified Err is dominated by the call into the decoder "
+                      "(BrotliDecoderDecompressStream / BrotliDecompressCustomDict)")
+    DEC = ("BrotliDecoderDecompressStream", "BrotliDecompressCustomDict")
+    backs = [b for c in facts.crates if c == "shared_brotli_patch_decoder" for b in facts.all_bodies(c)
+             if b.path.split("::")[-1].startswith("shared_brotli_decode")]
+    chk.anchor("C18-f", "brotli backend(s) shared_brotli_decode_*", backs)
+    for b in backs:
+        dec = [bb for bb, t in b.calls() if t.callee.split("::")[-1].split("<")[0] in DEC]
+        chk.ob("C18-f", f"{b.path.split('::')[-1]} calls the decoder ({len(dec)} site(s))", bool(dec), key=f"{b.path}|decoder-call",
+               file=b.file, line=b.lo, fn=b.path)
+        bad = []
+        n_ok = [0]
+
+        def on_call(bb, t, state, env, trace, _dec=set(dec)):
+            if bb in _dec:
+                return [(("decoded",), None)]
+            return None
+
+        def on_exit(bb, state, rv, env, trace, _b=b):
+            cls = ret_class(_b, rv)
+            if cls == "err":
+                return
+            n_ok[0] += 1
+            if state != ("decoded",):
+                bad.append((cls, trace_lines(_b, trace)))
+        ex = Explorer(b, on_call=on_call, on_exit=on_exit)
+        ex.run(())
+        chk.ob("C18-f", f"{b.path.split('::')[-1]}: {n_ok[0]} non-error exit path(s), all after the decoder call", not bad,
+               key=f"{b.path}|ok-without-decoding", file=b.file, line=b.lo, fn=b.path,
+               detail="a path returns a decoded result without the stream having been handed to the decoder (path through lines "
+                      f"{bad[0][1][-12:] if bad else []}): an invalid, truncated or over-long stream is then accepted and the patch "
+                      "marked as applied")
+        n_ok = n_ok[0]
+        chk.floor("C18-f", f"non-error exits of {b.path.split('::')[-1]}", n_ok, 1)
+
     # From<DecodeError>: arm count recorded (exhaustiveness is compiler checked)
     fd = facts.find_bodies(r"PatchingError as core::convert::From<shared_brotli_patch_decoder::decode_error::DecodeError>>::from$", IFT)
     if fd:
